@@ -79,6 +79,15 @@ func (s *Sim) deliver(f *Flight) {
 	if s.touch(n, c, func() { c.Err = n.RN.Step(m) }) {
 		s.Mon.onDelivered(n, f, c.Err)
 	}
+	if n.Up && n.Opts.Async && f.M.GetType() == pb.MsgSnap && n.RN.HasReady() {
+		// Contract choice (DESIGN section 3): an application with an
+		// asynchronous apply thread takes the Ready right after stepping a
+		// MsgSnap, so that it learns about an accepted snapshot before its
+		// apply thread calls ApplyConfChange for older, now superseded
+		// entries (raft switches to the snapshot's configuration at Step
+		// time; an old conf change applied on top of it would corrupt it).
+		s.takeReadyAsync(n)
+	}
 }
 
 func (s *Sim) Drop(idx int) {
@@ -121,7 +130,7 @@ func (s *Sim) ReportSnap(k int, failure bool) {
 	if !n.Up || n.Inc != o.LeaderInc {
 		return // the leader incarnation that sent it is gone
 	}
-	s.touch(n, &Cause{Kind: "reportsnap"}, func() { n.RN.ReportSnapshot(o.To, st) })
+	s.touch(n, &Cause{Kind: "reportsnap", Msg: &pb.Message{From: new(o.To)}}, func() { n.RN.ReportSnapshot(o.To, st) })
 }
 
 // ---------------------------------------------------------------- sync Ready
@@ -336,7 +345,7 @@ func (s *Sim) applyEntries(n *Node, ents []*pb.Entry) {
 			return
 		}
 		idx := e.GetIndex()
-		if idx <= n.SM.Applied {
+		if idx <= n.SM.Applied || idx <= n.SnapFloor {
 			// an old batch processed after a snapshot install (async apply
 			// thread); the state machine already covers it.
 			s.Stats.inc("apply.skipped_old")
@@ -394,6 +403,9 @@ func (s *Sim) takeReadyAsync(n *Node) {
 	for _, m := range rd.Messages {
 		switch m.GetTo() {
 		case raft.LocalAppendThread:
+			if sn := m.GetSnapshot(); sn != nil && sn.GetMetadata().GetIndex() > n.SnapFloor {
+				n.SnapFloor = sn.GetMetadata().GetIndex()
+			}
 			n.AppendQ = append(n.AppendQ, m)
 		case raft.LocalApplyThread:
 			n.ApplyQ = append(n.ApplyQ, m)
@@ -557,7 +569,7 @@ func (s *Sim) stabilize(rounds int) bool {
 				s.Net.Owed = append(s.Net.Owed[:k:k], s.Net.Owed[k+1:]...)
 				ln := s.Nodes[o.Leader]
 				if ln.Up && ln.Inc == o.LeaderInc {
-					s.touch(ln, &Cause{Kind: "reportsnap"}, func() { ln.RN.ReportSnapshot(o.To, raft.SnapshotFinish) })
+					s.touch(ln, &Cause{Kind: "reportsnap", Msg: &pb.Message{From: new(o.To)}}, func() { ln.RN.ReportSnapshot(o.To, raft.SnapshotFinish) })
 					did = true
 				}
 				continue
